@@ -193,6 +193,23 @@ def _same_name_pairs():
     return out
 
 
+def _same_data_pairs():
+    """pairs of DIFFERENT named groups that store the same quaternions in the same order and differ only in their improper
+    flags (2 / m, 4 / -4, 422 / 4mm, 32 / 3m, 6 / -6, 622 / 6mm, ...): a comparison of the raw data cannot tell them apart"""
+    from orix.quaternion import symmetry as S
+    out = []
+    gs = list(S._groups)
+    for i, A in enumerate(gs):
+        for B in gs[i + 1:]:
+            if A.shape == B.shape and np.allclose(A.data, B.data) and not np.array_equal(A.improper, B.improper):
+                out.append((f"{A.name} / {B.name}: equal quaternion data, different improper flags", A, B))
+    return out
+
+
+def _lookalike_pairs():
+    return _same_name_pairs() + _same_data_pairs()
+
+
 def same_group(A, B):
     a, b = A.data.reshape(-1, 4), B.data.reshape(-1, 4)
     return all(np.min(np.minimum(np.abs(b - x).max(axis=1), np.abs(b + x).max(axis=1))) < 1e-9 for x in a)
@@ -201,7 +218,7 @@ def same_group(A, B):
 def same_name_check(ctx, c, outs):
     """two-phase comparison of orientations whose groups are different but carry the same name: every API still gives the
     brute-force value for the operations the groups actually hold, in both orders"""
-    pairs = _same_name_pairs()
+    pairs = _lookalike_pairs()
     if not pairs:
         return None
     src, A, B = pairs[c["pair"] % len(pairs)]
@@ -217,12 +234,12 @@ def same_name_check(ctx, c, outs):
                 ref = ang(brute_dot(G1, G2, q1[i], q2[i]))
                 if abs(a[i] - ref) > TOL_ANG:
                     return (f"angle_with = {float(a[i])!r} but brute force = {ref!r} for two different groups that are both named "
-                            f"{G1.name!r} (Laue group of {src} and the named group); q1 = {q1[i].tolist()}, q2 = {q2[i].tolist()}")
+                            f"{G1.name!r} / {G2.name!r} ({src}); q1 = {q1[i].tolist()}, q2 = {q2[i].tolist()}")
                 for j in range(len(q2)):
                     rj = ang(brute_dot(G1, G2, q1[i], q2[j]))
                     if abs(ao[i, j] - rj) > TOL_ANG or abs(al[i, j] - rj) > TOL_ANG:
                         return (f"angle_with_outer[{i},{j}] = {float(ao[i, j])!r} (lazy {float(al[i, j])!r}) but brute force = {rj!r} for two "
-                                f"different groups both named {G1.name!r} (Laue group of {src} and the named group)")
+                                f"look-alike groups {G1.name!r} / {G2.name!r} ({src})")
     return None
 
 
@@ -419,7 +436,7 @@ def generate(ctx):
     plist = [(names.index(a), names.index(b), nb) for a, b in fam if a in names and b in names]
     plist += [(k, k, 12) for k in range(nG)]
     plist += [(int(rng.integers(nG)), int(rng.integers(nG)), 40) for _ in range(10 if ctx.tier == "quick" else 100)]
-    for r in range(6 if ctx.tier == "quick" else 40):
+    for r in range(max(6, len(_lookalike_pairs())) if ctx.tier == "quick" else 60):
         n = 3
         c = {"pair": r, "q1": [GQ.unit_quat(rng)[0] for _ in range(n)], "q2": [GQ.unit_quat(rng)[0] for _ in range(n)]}
         ctx.count("same_name_groups", ("sng", r, tuple(c["q1"][0])), nontrivial=True)
